@@ -50,6 +50,8 @@ def leaf_script(kind, i, key_x):
         return b'\xab' + P(key_x) + b'\xac'                        # OP_CODESEPARATOR <key> OP_CHECKSIG: the digest commits to the separator's position (0)
     if kind == 'big':
         return b'\x75' + P(bytes([i % 256]) * 300) + b'\x75\x51'
+    if kind == 'nosig':
+        return b'\x51'                                               # OP_1: consumes nothing - the signature slot tap always adds stays on the stack (known finding)
     if kind == 'empty':
         return b''                                                  # the empty script is a valid leaf: the deepest witness item is what remains
     if kind in ('zero00', 'ffff'):
@@ -208,6 +210,12 @@ def check_case(c, ctx):
         want_top = [b'01'] if kind in ('checksig', 'codesep', 'same', 'args', 'big', 'zero00', 'ffff') else [b'%02x' % (1 + idx % 16)]
         if kind == 'empty' and last and int(last[0] or b'0', 16) != 0:
             want_top = last          # an empty leaf leaves the (non-zero) placeholder / signature item: any single true item
+        if kind == 'nosig':
+            lines_ = rb.out.strip().splitlines()
+            if not rb.abnormal and rb.rc == 0 and len(lines_) == 2 and lines_[-1] == b'01' and core.kf_active('C06-sigless-leaf'):
+                # known finding: the leaf is executed with the signature slot in front of it; address, control block, commitment and digest were checked above
+                ctx.known_hit('C06-sigless-leaf', case_json(c))
+                return
         if rb.abnormal or rb.rc != 0 or len(rb.out.strip().splitlines()) != 1 or last != want_top:
             raise Violation(c, 'btcdeb does not accept the transaction tap produced for leaf #%d of %d (rc=%s, stack %r, err %r)' % (idx, n, rb.rc, rb.out[-80:], rb.err[-200:]), observed=[rb.rc, rb.out.decode(errors='replace')[-80:]])
     except core.Inconclusive:
@@ -287,7 +295,7 @@ def check_keypath(c, ctx):
         ctx.inconclusive += 1
 
 
-KIND_SETS = [['empty'], ['empty', 'drop'], ['drop', 'empty', 'checksig'], ['drop'], ['same'], ['drop', 'same', 'same'], ['checksig', 'drop'], ['args', 'drop'], ['checksig'], ['big', 'drop'], ['drop', 'checksig', 'args', 'same'], ['zero00'], ['zero00'], ['zero00', 'ffff'], ['ffff', 'drop'], ['codesep'], ['codesep', 'drop']]
+KIND_SETS = [['nosig'], ['nosig', 'drop'], ['empty'], ['empty', 'drop'], ['drop', 'empty', 'checksig'], ['drop'], ['same'], ['drop', 'same', 'same'], ['checksig', 'drop'], ['args', 'drop'], ['checksig'], ['big', 'drop'], ['drop', 'checksig', 'args', 'same'], ['zero00'], ['zero00'], ['zero00', 'ffff'], ['ffff', 'drop'], ['codesep'], ['codesep', 'drop']]
 PREFIXES = [None, None, 'bc', 'tb', 'bcrt', 'xyz', 'a', 'x1', 'tb1', 'bc11', 'a1b', '1x', 'q~!1']
 
 
